@@ -68,13 +68,6 @@ Definition known_K1 (c : case) : bool :=
   | _ => false
   end.
 
-(* known class K2: list.length(null) is 0 (null is treated as the empty list by length only) *)
-Definition known_K2 (c : case) : bool :=
-  match c_call c with
-  | CLength VNull => true
-  | _ => false
-  end.
-
 Definition b2z (b : bool) : Z := if b then 1%Z else 0%Z.
 Definition run (c : case) : list Z :=
-  [ corr c; b2z (clause c); (if known_K1 c then 1 else if known_K2 c then 2 else 0)%Z ].
+  [ corr c; b2z (clause c); (if known_K1 c then 1 else 0)%Z ].
